@@ -157,3 +157,25 @@ func (p *Program) FuncKeysMatching(sub string) []string {
 	sort.Strings(out)
 	return out
 }
+
+// InRepo reports whether a function is declared in the repository under verification.
+func (p *Program) InRepo(fn *ssa.Function) bool {
+	if fn == nil {
+		return false
+	}
+	pk := fn.Pkg
+	if pk == nil && fn.Parent() != nil {
+		pk = fn.Parent().Pkg
+	}
+	if pk == nil {
+		// synthetic wrappers / instantiations: decide on the receiver's or origin's package
+		if o := fn.Origin(); o != nil && o.Pkg != nil {
+			pk = o.Pkg
+		} else if obj := fn.Object(); obj != nil && obj.Pkg() != nil {
+			return strings.HasPrefix(obj.Pkg().Path(), repoModule)
+		} else {
+			return true // unknown: do not generate the library-receiver obligation
+		}
+	}
+	return strings.HasPrefix(pk.Pkg.Path(), repoModule)
+}
